@@ -16,7 +16,7 @@ RULE = (
     "x key configuration (4 KDF hashes x {nonce, DH RFC5114, ECDH_P256, ECDH_P384}) x clock {mid-interval, first/last tick of an L2, L1, L0 interval} (quick: 4) x layout {in-envelope, trailing} x API {sync, async}. "
     "nonce mode: offline KeyCache with the root key, or seed keys fetched from the reference DC (whose envelope at L2'=31 carries / omits the L2 key); public-key mode: protect through the reference DC answering 'not authorised' (group public key only), unprotect with the offline cache. trailing layout: "
     "DPAPINGBlob.unpack(blob).pack(blob_in_envelope=False) fed back to unprotect. Oracle: unprotect(protect(x)) == x and the independent reference decryptor opens the same blob from the root key alone and the blob names the interval of the virtual clock. "
-    "Nonce-mode cells are additionally run twice in a row on one KeyCache shared along the whole shard (cache history x clock x SID). DC-seeded modes additionally run every ordered pair of 10 clock positions on a fresh cache that only holds what the DC returned. Every cell is distinct by construction; non-trivial = all (each runs protect, two unprotects and the reference decryptor)."
+    "Nonce-mode cells are additionally run twice in a row on one KeyCache shared along the whole shard (cache history x clock x SID). DC-seeded modes additionally run every ordered pair of 12 clock positions on a fresh cache that only holds what the DC returned. Every cell is distinct by construction; non-trivial = all (each runs protect, two unprotects and the reference decryptor)."
 )
 ASSUME = ["ref/cms.py + ref/gkdi.py calibrated on the 16 Windows vectors", "clock seam time.time_ns; DC with scripted security context for the public-key configurations"]
 BOUND = {"quick": "8 lengths x 4 SID shapes x 24 configs x 4 clocks x 2 layouts x 2 APIs", "thorough": "21 lengths x 45 SID shapes x 24 configs x 7 clocks x 2 x 2 (SID shapes cycled over the other dimensions for DH)"}
@@ -51,7 +51,7 @@ def _ctx(u, p, **kw):
     return secctx.ScriptedContext([b"C1"], 16)
 
 
-WALK = [(6, 0), (5, 31), (5, 7), (4, 31), (4, 3), (6, 5), (3, 0), (31, 31), (0, 0), (30, 31)]
+WALK = [(6, 0), (5, 31), (5, 7), (4, 31), (4, 3), (6, 5), (3, 0), (31, 31), (0, 0), (30, 31), (0, 7), (0, 5)]  # (0, x): first L1 interval - the DC's envelope has no L1 key there
 
 
 def roundtrip(rk: gkdi.RootKey, mode: str, sid: str, pt: bytes, ft: int, api: str, cache=None, seed_cache=None):
@@ -177,7 +177,7 @@ def run_shard(shard, tier, seed, acc) -> None:
                     acc.outcome("roundtrip-ok-shared-cache")
             hist.append([ln, sid, ft, api])
     if m.startswith("nonce-dc") and part == 0:
-        # every ordered pair of 10 clock positions (adjacent L1 intervals, L2 = 31, interval ends) on a fresh seed-only cache: the second
+        # every ordered pair of 12 clock positions (adjacent L1 intervals, L2 = 31, interval ends) on a fresh seed-only cache: the second
         # call is served from what the first one fetched whenever that covers it (a client clock behind the DC's, or moving backwards)
         import dpapi_ng
 
